@@ -87,6 +87,7 @@ def run_merge(base, local, remote, args, name, validate=True, snapshot=False, ex
         return run, None, None
     run["D"] = enc_decisions(decisions)
     run["merged"] = enc(to_plain(merged))
+    run["jsvalid"] = published_schema_ok(decisions)
     if validate:
         from .concretize import schema_errors
         errs = schema_errors(merged)
@@ -98,7 +99,59 @@ def run_merge(base, local, remote, args, name, validate=True, snapshot=False, ex
     return run, merged, decisions
 
 
-def triple_event(tid, base, local, remote, with_diffs=False):
+_VALIDATOR = None
+
+
+def published_schema_ok(decisions):
+    """The decision list, after a JSON round trip, against /repo's published schema files."""
+    global _VALIDATOR
+    import json
+    import jsonschema
+    from .common import REPO
+    if _VALIDATOR is None:
+        with open(os.path.join(REPO, "nbdime", "merge_format.schema.json")) as f:
+            schema = json.load(f)
+        with open(os.path.join(REPO, "nbdime", "diff_format.schema.json")) as f:
+            dschema = json.load(f)
+        resolver = jsonschema.RefResolver("file://%s/nbdime/" % REPO, schema,
+                                          store={"diff_format.schema.json": dschema,
+                                                 "file://%s/nbdime/diff_format.schema.json" % REPO: dschema})
+        _VALIDATOR = jsonschema.Draft4Validator(schema, resolver=resolver)
+    try:
+        doc = json.loads(json.dumps(decisions))
+    except Exception:
+        return False
+    return not list(_VALIDATOR.iter_errors(doc))
+
+
+def run_generic(base, local, remote, name, snapshot=False, extra=None):
+    """One run of the generic JSON merger: decide_merge + apply_decisions."""
+    from nbdime.merging.generic import decide_merge
+    from nbdime.merging.decisions import apply_decisions
+    run = {"name": name}
+    if extra:
+        run.update(extra)
+    try:
+        decisions = decide_merge(base, local, remote)
+        merged = apply_decisions(base, decisions)
+    except Exception as e:  # noqa
+        t, w = exc_info(e)
+        run["raised"] = {"type": t, "where": w, "msg": str(e)[:200]}
+        return run, None, None
+    run["D"] = enc_decisions(decisions)
+    run["merged"] = enc(to_plain(merged))
+    if snapshot:
+        run["after"] = [enc(to_plain(base)), enc(to_plain(local)), enc(to_plain(remote))]
+    return run, merged, decisions
+
+
+def triple_event(tid, base, local, remote, with_diffs=False, generic=False):
+    if generic and with_diffs:
+        from nbdime import diff
+        ev = triple_event(tid, base, local, remote)
+        ev["ld"] = enc_diff(diff(base, local))
+        ev["rd"] = enc_diff(diff(base, remote))
+        return ev
     ev = {"tid": tid, "base": enc(to_plain(base)), "local": enc(to_plain(local)),
           "remote": enc(to_plain(remote)), "runs": []}
     if with_diffs:
